@@ -207,6 +207,42 @@ fn main() {
         }
         let _ = h.join();
     }
+    // F-C07-1: shared stream: a consumer that loaded its position, was overtaken by a sibling and lapped by
+    // the producer, and then finds every sender gone, reports the end although accepted values are still
+    // undelivered to its stream.  Real threads; thread A is suspended just before its 5th shared-memory
+    // operation of try_recv (the first look at the slot's tag).
+    {
+        use multiqueue2::verif_hooks::sched;
+        use std::sync::mpsc::channel;
+        use std::sync::mpsc::TryRecvError;
+        let (tx, rx_a) = mpmc_queue::<u64>(2);
+        for i in 0..4 {
+            tx.try_send(i).unwrap();
+            assert_eq!(rx_a.try_recv(), Ok(i));
+        }
+        tx.try_send(10).unwrap(); // count 4, slot 0
+        let rx_b = rx_a.clone();
+        sched::pause_thread_at(9, 5);
+        let (done_tx, done_rx) = channel();
+        let h = std::thread::spawn(move || {
+            sched::enter(9);
+            let r = rx_a.try_recv();
+            let _ = done_tx.send((r, rx_a));
+        });
+        sched::wait_until_paused();
+        assert_eq!(rx_b.try_recv(), Ok(10)); // the sibling takes count 4
+        tx.try_send(11).unwrap(); // count 5, slot 1
+        tx.try_send(12).unwrap(); // count 6, slot 0: overwrites the slot A is about to look at
+        drop(tx); // the last sender leaves
+        sched::resume();
+        let (r, rx_a) = done_rx.recv_timeout(std::time::Duration::from_secs(5)).expect("try_recv returns");
+        let _ = h.join();
+        let later = rx_a.try_recv();
+        let ok = r != Err(TryRecvError::Disconnected);
+        report(ok, "F-C07-1", format!("consumer overtaken by a sibling and lapped, last sender gone: try_recv returned {:?} while values 11 and 12 were still undelivered (its next call returns {:?})", r, later));
+        drop(rx_b);
+    }
+
     // F-C10-1: add_stream on a SHARED parent stream: the parent's position is read first and the new
     // stream list is published later; in between a sibling consumer of the parent and the producer can
     // move on by more than the ring size.  Real threads; thread A is suspended just before the
